@@ -22,12 +22,12 @@ type qAtom struct {
 	class     string
 }
 
-func lhs(sym string) rm.Lhs            { return rm.Lhs{Sym: sym} }
-func anyOf(sym string) rm.Lhs          { return rm.Lhs{Fn: "anyOf", Sym: sym} }
-func allOf(sym string) rm.Lhs          { return rm.Lhs{Fn: "allOf", Sym: sym} }
-func countOf(sym string) rm.Lhs        { return rm.Lhs{Fn: "count", Sym: sym} }
-func countSub(s *rm.SubQ) rm.Lhs       { return rm.Lhs{Fn: "count", Sub: s} }
-func i64p(v int64) *int64              { return &v }
+func lhs(sym string) rm.Lhs      { return rm.Lhs{Sym: sym} }
+func anyOf(sym string) rm.Lhs    { return rm.Lhs{Fn: "anyOf", Sym: sym} }
+func allOf(sym string) rm.Lhs    { return rm.Lhs{Fn: "allOf", Sym: sym} }
+func countOf(sym string) rm.Lhs  { return rm.Lhs{Fn: "count", Sym: sym} }
+func countSub(s *rm.SubQ) rm.Lhs { return rm.Lhs{Fn: "count", Sub: s} }
+func i64p(v int64) *int64        { return &v }
 
 var cmpOps = []string{"=", "!=", "<", "<=", ">", ">="}
 
